@@ -207,7 +207,10 @@ def prove_download_file(src_root, ex: Explorer):
                 return self
 
             def pyvc_exit(self, it2, exc, is_async):
+                closed_after.append([c[0] for c in calls if c[0] != 'start_transferring'])
                 return False
+
+        closed_after = []
 
         def aopen(it2, a, k):
             opened.append((a[0], k.get('mode', a[1] if len(a) > 1 else 'r')))
@@ -247,6 +250,9 @@ def prove_download_file(src_root, ex: Explorer):
             if 'complete' in ends:
                 ctx.prove('C04._download_file.complete-guard', ends == ['complete'] and ctx.valid(eq) and raised is None,
                           'COMPLETE although filesize != offset + bytes appended')
+                # COMPLETE is announced after the local file was closed (flushed): whoever reacts to COMPLETE finds the whole file
+                ctx.prove('C04._download_file.complete-after-close', closed_after == [[]],
+                          f'state operations issued while the local file was still open: {closed_after}')
             else:
                 ctx.prove('C04._download_file.not-complete', ends == ['fail'] and ctx.valid(z3.Not(eq)), f'state calls {ends}')
             ok = len(recv) == 1
